@@ -204,11 +204,12 @@ def _hessian(repo, res, bl):
     X = SymArr.symbols("X", (n_obs, total))
     D = SymArr.symbols("D", (n_obs, len(sn)))
     und = None
-    for tp in (None, ["c", "a"]):
+    for tp, x0_int in ((None, False), (["c", "a"], False), (None, True)):
         me = loss_self(sn, tp, None, n_obs)
         me.attrs["_weight"] = SymArr.ones((n_obs, len(sn)))
         me.attrs["_t"] = [0.0, 1.0, 2.0]
         me.attrs["_x0"] = SymArr.symbols("x0", (nS,))
+        me.attrs["_x0"].int_typed = x0_int          # initial values given as whole numbers ([999, 1, 0]): an integer array
         me.attrs["_theta"] = Tok("theta")
         ode = me.attrs["_ode"]
         ode.attrs["_intName"] = None
@@ -265,7 +266,7 @@ def _hessian(repo, res, bl):
                         # second-order sensitivity of observed state s w.r.t. (theta_o, theta_o2): row (i,k) -> i*nP+k, column l
                         c = c + D.at((t, s)) * X.at((t, base + (st_idx[s] * nP + p_idx[o]) * nP + p_idx[o2]))
                 want[o, o2] = 2 * g + c
-        tag = "hessian(target_param=%s)" % (tp,)
+        tag = "hessian(target_param=%s%s)" % (tp, ",integer-typed initial values" if x0_int else "")
         if kind != "return" or not isinstance(out, SymArr):
             res.violated("R-SIGN", f, tag, "hessian %s %s" % (kind, out), node=f.node)
             continue
@@ -277,6 +278,8 @@ def _hessian(repo, res, bl):
         ok = ig is not None and ig[0] == ("method", "ode_and_forwardforward_T") and ig[1] == ("method", "ode_and_forwardforward_jacobian_T") \
             and ig[3] == 0.0 and ig[4] == [1.0, 2.0] and isinstance(ig[2], SymArr) and ig[2].size == total \
             and all(x == y for x, y in zip(ig[2].flat[:nS], me.attrs["_x0"].flat)) and all(x == A.Rat.const(0) for x in ig[2].flat[nS:])
+        if x0_int:
+            continue
         res.check(ok, "R-SIGN", f, "integration" + ("" if tp is None else "(subset)"), "integrates the forward-forward system from [x0; zeros] over (t[0], t[1:])",
                   "hessian integrates %s" % (ig[:2] + (ig[3], ig[4]) if ig else None,), node=f.node)
         # the Hessian is the one *at theta*: the theta handed in is bound and installed in the model before the integration
